@@ -1,25 +1,20 @@
 #!/bin/sh
-# re-evaluate the round-5 changes that the first run missed (after strengthening); thread-interleaving changes also against C20
+# re-evaluate the round-6 changes that the first run missed (after strengthening)
 cd /verif
 run() { echo "=== $1 $2 -> $3"; tools/seed_eval.py $1 $2 quick $3 2>&1 | tail -4; }
-run c01 J "C01 C20"
-run c04 I "C04"
-run c05 J "C05"
-run c06 I "C06 C20"
-run c07 I "C07"
-run c07 J "C07"
-run c08 I "C08"
-run c08 J "C08"
-run c09 J "C09"
-run c12 J "C12"
-run c13 I "C13"
-run c14 I "C14"
-run c15 I "C15"
-run c15 J "C15"
-run c16 I "C16"
-run c16 J "C16"
-run c17 J "C17"
-run c18 J "C18 C20"
-run c19 I "C19"
-run c20 I "C20 C08"
-run c20 J "C20"
+run c01 K "C01"
+run c02 K "C02 C12"
+run c03 L "C03"
+run c06 L "C06 C15"
+run c08 K "C08"
+run c08 L "C08"
+run c11 K "C11"
+run c12 K "C12"
+run c12 L "C12"
+run c14 K "C14"
+run c16 K "C16"
+run c16 L "C16"
+run c17 L "C17"
+run c18 K "C18"
+run c20 L "C20 C08"
+run c20 K "C20"
